@@ -8,6 +8,8 @@ Known finding (mechanism-keyed, input-only predicate): equal-count quantile seed
 """
 import os
 
+import itertools
+
 import numpy as np
 
 from rv import core, zoo, monitors
@@ -32,7 +34,7 @@ KNOWN = 'gmm-equal-count-seeding'
 R = 262144
 
 
-def make_beads(rng, balanced, container='float'):
+def make_beads(rng, balanced, container='float', force_low_pile=False):
     # container 'float': RFI stored directly ($DATATYPE=F, range 2^18); 'int': 10-bit, 4-decade log-amplified integers
     # that the real to_rfi converts (RFI range [1, 9910])
     R, floor = (262144, 8.0) if container == 'float' else (9910.0, 3.0)
@@ -41,6 +43,11 @@ def make_beads(rng, balanced, container='float'):
     blank = rng.random() < 0.4
     sat_hi = rng.random() < 0.2
     sat_lo = (not blank) and rng.random() < 0.15
+    all_zero = bool(rng.random() < 0.5)
+    sel_scale = 'log' if (container == 'float' and rng.random() < 0.3) else None
+    if force_low_pile:
+        # the dimmest population sits entirely ON the lower limit 0 and the selection runs on a log axis
+        blank, sat_lo, all_zero, sel_scale = False, True, True, 'log'
     if balanced:
         n0 = int(rng.integers(200, 801))
         sizes = [max(200, min(800, int(n0 * (1 + (rng.uniform(-0.1, 0.1) if rng.random() < 0.5 else 0))))) for _ in range(K)]
@@ -79,12 +86,17 @@ def make_beads(rng, balanced, container='float'):
         if sat_lo:
             med[0] = 0.0
             lim[0] = True
+        if sel_scale == 'log':
+            # on a log axis that starts at 1e-15 the default upper threshold (98.5 % of the axis) lies near 0.5 R: a
+            # population brighter than R/10 may legitimately be set aside (either outcome accepted)
+            lim = [l or (mm > 0.1 * R) for l, mm in zip(lim, med)]
         cv = rng.uniform(0.02, 0.05, size=K)
         col = np.empty(N)
         for k in range(K):
             sel = truth == k
             if med[k] == 0.0:
-                col[sel] = np.where(rng.random(sel.sum()) < 0.9, 0.0, rng.uniform(0, 0.5, size=sel.sum()))
+                # piled up at the lower limit: nine in ten events exactly on it, or every single one
+                col[sel] = np.where(rng.random(sel.sum()) < (0.9 if all_zero is False else 2.0), 0.0, rng.uniform(0, 0.5, size=sel.sum()))
             else:
                 sg = np.sqrt(np.log(1 + cv[k] ** 2))
                 col[sel] = med[k] * np.exp(rng.normal(0, sg, size=sel.sum()))
@@ -101,7 +113,7 @@ def make_beads(rng, balanced, container='float'):
     X = np.column_stack(cols)[order]
     truth = truth[order]
     return dict(container=container, K=K, C=C, X=X, truth=truth, laws=laws, mef=mefs, med=rfis, atlimit=atlimit, blank=blank,
-                sat_hi=sat_hi, sat_lo=sat_lo, sizes=sizes)
+                sat_hi=sat_hi, sat_lo=sat_lo, sizes=sizes, sel_scale=sel_scale)
 
 
 def predicate_known(F, s, clustering_channels, truth, K):
@@ -122,8 +134,11 @@ def predicate_known(F, s, clustering_channels, truth, K):
 
 def run_once(F, s, bd, mef_values, chans, cl_ch, stat, seed):
     np.random.seed(seed)
+    kw = {}
+    if bd.get('sel_scale'):
+        kw['selection_params'] = {'scale': bd['sel_scale']}       # the documented selection on another axis scale
     return core.attempt(F.mef.get_transform_fxn, s, mef_values, chans, clustering_channels=cl_ch,
-                        statistic_fxn=stat, full_output=True)
+                        statistic_fxn=stat, full_output=True, **kw)
 
 
 def run(ctx):
@@ -138,7 +153,10 @@ def run(ctx):
     for cid, rng in ctx.cases(ids):
         mon.cid = cid
         container = 'int' if rng.random() < 0.35 else 'float'
-        bd = make_beads(rng, cid[0] == 'bal', container)
+        low_pile = cid[0] == 'bal' and cid[1] % 11 == 5
+        if low_pile:
+            container = 'float'
+        bd = make_beads(rng, cid[0] == 'bal', container, force_low_pile=low_pile)
         K, C = bd['K'], bd['C']
         names = ['FL%d' % (c + 1) for c in range(C)]
         if container == 'float':
@@ -219,8 +237,12 @@ def run(ctx):
             ctx.counters['chk:pairing'] += 1
             ok = len(sel_mef) == len(sel_rfi)
             cands = [want_mask_hard]
-            if soft.any():
-                cands.append(want_mask_hard & ~soft)
+            si = [int(i) for i in np.nonzero(soft)[0]][:6]
+            for r_ in range(1, len(si) + 1):                    # every subset of the 'either outcome accepted' populations
+                for sub in itertools.combinations(si, r_):
+                    mk = want_mask_hard.copy()
+                    mk[list(sub)] = False
+                    cands.append(mk)
             okp = ok and any(np.array_equal(sel_mef, mv[mk]) and np.array_equal(sel_rfi, tv[mk]) for mk in cands) \
                 if list(border) == list(range(K)) else ok
             good &= ctx.check(okp, 'pairing-wrong' + dtag, cid, channel=c, sel_mef=sel_mef, sel_rfi=sel_rfi,
